@@ -45,6 +45,8 @@ type interpreter struct {
 	observersRet       map[string][]value
 	inObserver         bool
 	files              map[string]string // virtual file system (C19)
+	osArgs             []value
+	flags              *flagState
 	exitCode           int
 	mapOrder           int
 }
@@ -245,7 +247,7 @@ func (fr *frame) runDefer(d *deferred) {
 
 func isAbort(r interface{}) bool {
 	switch r.(type) {
-	case pathAbort, engineError, killGoroutine:
+	case pathAbort, engineError, killGoroutine, exitPanic:
 		return true
 	}
 	return false
@@ -1007,11 +1009,7 @@ func (i *interpreter) lazyGlobal(g *ssa.Global) *value {
 	case "os.Stderr":
 		v = ptrTo(nativeObj{&stdStream{i: i, fd: 2}})
 	case "os.Args":
-		var a []value
-		for _, s := range i.path.eng.cfg.Args {
-			a = append(a, s)
-		}
-		v = a
+		v = append([]value(nil), i.osArgs...)
 	default:
 		if strings.HasPrefix(name, "unicode.") || strings.HasPrefix(name, "strconv.") {
 			panic(engineError{"access to uninitialised global " + name})
